@@ -11,6 +11,15 @@
 //              import) and dozens of never-seen namespace URIs per document: hammers the synchronised URI pool
 //              bit8 local-code-page transcoding of CJK/Cyrillic text of varying length in a tight loop (overflow-retry
 //              path of ICULCPTranscoder under a UTF-8 locale)
+//              bit9 private parsers on the one LOCKED pool with cacheGrammarFromParse + useCachedGrammarInParse, documents
+//              with external DTD subsets (per-thread different DTDs under the same and under different system ids) and
+//              loadGrammar(DTD, toCache): a locked pool must stay exactly as it was (POOL lines before/after)
+//              bit10 scanner error paths that format exception text (unsupported forced/declared encodings, unopenable
+//              system ids, unknown URL protocols), every name unique to the thread: each message must carry its own
+//              bit11 every category / block escape known to RangeTokenMap, \s \d \w \i \c and complements, with and without
+//              option i, compiled / matched / destroyed in a tight loop
+//   xh_C17-tsan audit    (single-threaded) lists every RangeToken reachable from RangeTokenMap right after Initialize with
+//              its build state: shared state that Initialize should have built but is built lazily is the racy class
 //
 //   ICU is not built with ThreadSanitizer, so what happens inside a UConverter is invisible to it.  The harness
 //   therefore interposes the ucnv_* entry points that take a converter (the executable is linked with -rdynamic, its
@@ -28,6 +37,25 @@
 //   result array, where thread i writes slot i only and the main thread reads after join(), (c) read-only
 //   configuration fixed before the threads are created, (d) the one locked grammar pool under test.
 #include "xh_common.hpp"
+#include <functional>
+#include <thread>
+#include <mutex>
+#include <condition_variable>
+#include <atomic>
+#include <map>
+#include <algorithm>
+// the audit reads the private build state of the shared RangeTokens (fMap, fCompacted, fCaseIToken): the regx headers
+// are compiled with private/protected opened up (access only; layout is unchanged); standard headers come first
+#define private public
+#define protected public
+#include <xercesc/util/regx/RangeToken.hpp>
+#include <xercesc/util/regx/RangeTokenMap.hpp>
+#include <xercesc/util/regx/TokenFactory.hpp>
+#undef private
+#undef protected
+#include <xercesc/util/RefHashTableOf.hpp>
+#include <xercesc/framework/LocalFileInputSource.hpp>
+#include <xercesc/framework/XMLGrammarDescription.hpp>
 #include <xercesc/util/TransService.hpp>
 #include <xercesc/util/XMLUniDefs.hpp>
 #include <xercesc/util/XMLMutexMgr.hpp>
@@ -370,6 +398,7 @@ struct Shared {                       // fixed before the threads start
     XMLGrammarPool* pool = 0;         // the one locked grammar pool (workload bit1)
     int iters = 4;
     unsigned mask = 0x3F;
+    std::vector<std::string> rangeKeys;   // every keyword of RangeTokenMap (read-only once the threads run)
 };
 
 static void wrapExceptions(Digest& d, const std::function<void()>& f) {
@@ -750,10 +779,208 @@ static void wLcp(Digest& d, Rng& r) {
     });
 }
 
+// ------------------------------------------------------------------------------------------------------------------
+// audit of the shared range tokens (single-threaded, main thread only)
+// ------------------------------------------------------------------------------------------------------------------
+struct TokInfo { std::string key; int compl_; bool present, map, compacted, sorted, casei; };
+static std::vector<TokInfo> auditTokens() {
+    std::vector<TokInfo> out;
+    RangeTokenMap* tm = RangeTokenMap::instance();
+    RefHashTableOf<RangeTokenElemMap>* reg = tm->getTokenRegistry();
+    RefHashTableOfEnumerator<RangeTokenElemMap> en(reg, false, XMLPlatformUtils::fgMemoryManager);
+    while (en.hasMoreElements()) {
+        const XMLCh* key = (const XMLCh*)en.nextElementKey();
+        RangeTokenElemMap* em = reg->get(key);
+        for (int c = 0; c < 2; c++) {
+            RangeToken* t = em->getRangeToken(c == 1);
+            TokInfo ti; ti.key = narrow(key); ti.compl_ = c; ti.present = t != 0;
+            ti.map = t && t->fMap != 0; ti.compacted = t && t->fCompacted; ti.sorted = t && t->fSorted; ti.casei = t && t->fCaseIToken != 0;
+            out.push_back(ti);
+        }
+    }
+    std::sort(out.begin(), out.end(), [](const TokInfo& a, const TokInfo& b) { return a.key != b.key ? a.key < b.key : a.compl_ < b.compl_; });
+    return out;
+}
+
+// bit9: DTDs and a locked pool
+class DtdResolver : public EntityResolver {
+public:
+    std::map<std::string, std::string> docs;
+    InputSource* resolveEntity(const XMLCh* const, const XMLCh* const systemId) override {
+        std::string sysid = narrow(systemId);
+        for (auto& kv : docs)
+            if (sysid.size() >= kv.first.size() && sysid.compare(sysid.size() - kv.first.size(), kv.first.size(), kv.first) == 0)
+                return new MemBufInputSource((const XMLByte*)kv.second.data(), kv.second.size(), systemId, false);
+        return 0;
+    }
+};
+
+static std::string genDtd(Rng& r, std::string& childName) {
+    childName = "c" + std::to_string(r.below(5));
+    std::string s = "<!ELEMENT root (" + childName + (r.coin() ? "+" : "*") + ")>\n<!ATTLIST root v CDATA #IMPLIED>\n";
+    s += "<!ELEMENT " + childName + " (#PCDATA)>\n<!ATTLIST " + childName + " k NMTOKEN '" + word(r).substr(0, 1) + "1'>\n";
+    s += "<!ENTITY ent 'E" + std::to_string(r.below(100)) + "'>\n";
+    return s;
+}
+
+static void wDtdPool(Digest& d, Rng& r, XMLGrammarPool* pool, const std::string& tag0) {
+    d.ops++;
+    std::string tag = tag0;
+    for (char& c : tag) if (c == ':') c = '_';
+    DtdResolver res;
+    std::string child;
+    // the SAME system id names a different DTD in every thread; a second, thread-unique system id as well
+    bool shared = r.coin();
+    std::string sysid = shared ? "shared-c17.dtd" : "u_" + tag + ".dtd";
+    res.docs[sysid] = genDtd(r, child);
+    int kind = r.below(4) == 0 ? 1 : 0;
+    std::string doc = "<?xml version=\"1.0\"?>\n<!DOCTYPE root SYSTEM \"" + sysid + "\">\n<root v=\"" + word(r) + "\">";
+    unsigned n = 1 + r.below(4);
+    for (unsigned i = 0; i < n; i++) doc += "<" + child + ">t&ent;" + std::to_string(i) + "</" + child + ">";
+    if (kind == 1) doc += "<undeclared/>";
+    doc += "</root>\n";
+    MemBufInputSource src((const XMLByte*)doc.data(), doc.size(), "c17-dtd-doc", false);
+    int api = r.below(3);
+    bool preload = r.below(3) == 0;
+    d.add("dtdpool api" + std::to_string(api) + (shared ? " shared" : " unique") + (preload ? " preload" : ""));
+    wrapExceptions(d, [&]() {
+        std::string ldtd = genDtd(r, child);                       // for loadGrammar(DTD, toCache = true)
+        MemBufInputSource lsrc((const XMLByte*)ldtd.data(), ldtd.size(), ("load_" + tag + ".dtd").c_str(), false);
+        if (api == 0) {
+            SAXParser* p = new SAXParser(0, XMLPlatformUtils::fgMemoryManager, pool);
+            H1 h;
+            p->setDocumentHandler(&h); p->setErrorHandler(&h); p->setEntityResolver(&res);
+            p->setValidationScheme(SAXParser::Val_Always);
+            p->cacheGrammarFromParse(true); p->useCachedGrammarInParse(true);
+            if (preload) { Grammar* g = p->loadGrammar(lsrc, Grammar::DTDGrammarType, true); d.add(g ? "loaded" : "noload"); }
+            try { p->parse(src); } catch (const SAXParseException& e) { h.s.err("X", e); }
+            d.add(h.s.out); d.add(std::to_string((int)p->getErrorCount()));
+            delete p;
+        } else if (api == 1) {
+            SAX2XMLReader* p = XMLReaderFactory::createXMLReader(XMLPlatformUtils::fgMemoryManager, pool);
+            H2 h;
+            p->setContentHandler(&h); p->setErrorHandler(&h); p->setEntityResolver(&res);
+            p->setFeature(XMLUni::fgSAX2CoreValidation, true);
+            p->setFeature(XMLUni::fgXercesDynamic, false);
+            p->setFeature(XMLUni::fgXercesCacheGrammarFromParse, true);
+            p->setFeature(XMLUni::fgXercesUseCachedGrammarInParse, true);
+            if (preload) { Grammar* g = p->loadGrammar(lsrc, Grammar::DTDGrammarType, true); d.add(g ? "loaded" : "noload"); }
+            try { p->parse(src); } catch (const SAXParseException& e) { h.s.err("X", e); }
+            d.add(h.s.out); d.add(std::to_string((int)p->getErrorCount()));
+            delete p;
+        } else {
+            XercesDOMParser* p = new XercesDOMParser(0, XMLPlatformUtils::fgMemoryManager, pool);
+            H1 h;
+            p->setErrorHandler(&h); p->setEntityResolver(&res);
+            p->setValidationScheme(XercesDOMParser::Val_Always);
+            p->cacheGrammarFromParse(true); p->useCachedGrammarInParse(true);
+            if (preload) { Grammar* g = p->loadGrammar(lsrc, Grammar::DTDGrammarType, true); d.add(g ? "loaded" : "noload"); }
+            try { p->parse(src); } catch (const SAXParseException& e) { h.s.err("X", e); }
+            d.add(h.s.out);
+            std::string dump; dumpDom(p->getDocument(), dump); d.add(dump);
+            delete p;
+        }
+    });
+}
+
+// bit10: error paths whose text is formatted from an exception (XMLScanner::emitError(code, exceptCode, text1..4) and the
+// exception constructors): every name below is unique to the thread and iteration, so a message that does not carry its
+// own name was formatted by / overwritten for somebody else
+static void wErrText(Digest& d, Rng& r, const std::string& tag0) {
+    static const XMLCh* scanners[] = {XMLUni::fgIGXMLScanner, XMLUni::fgWFXMLScanner, XMLUni::fgDGXMLScanner, XMLUni::fgSGXMLScanner};
+    d.ops++;
+    std::string tag = tag0;
+    for (char& c : tag) if (c == ':') c = '-';
+    for (int it = 0; it < 6; it++) {
+        int what = r.below(5);
+        std::string name = "n" + tag + "-" + std::to_string(it) + "-" + std::to_string(r.below(100000));
+        std::string doc;
+        d.add("err" + std::to_string(what));
+        wrapExceptions(d, [&]() {
+            SAX2XMLReader* p = XMLReaderFactory::createXMLReader();
+            H2 h;
+            p->setContentHandler(&h); p->setErrorHandler(&h);
+            p->setProperty(XMLUni::fgXercesScannerName, (void*)scanners[r.below(4)]);
+            p->setFeature(XMLUni::fgXercesLoadExternalDTD, true);
+            p->setFeature(XMLUni::fgSAX2CoreValidation, r.coin());
+            std::string exc;
+            try {
+                if (what == 0) {                     // forced encoding nobody supports
+                    doc = "<?xml version=\"1.0\"?><r>" + word(r) + "</r>";
+                    MemBufInputSource src((const XMLByte*)doc.data(), doc.size(), "c17-err", false);
+                    src.setEncoding(X("X-NOPE-" + name).c_str());
+                    p->parse(src);
+                } else if (what == 1) {              // declared encoding nobody supports
+                    doc = "<?xml version=\"1.0\" encoding=\"X-UNK-" + name + "\"?><r>" + word(r) + "</r>";
+                    MemBufInputSource src((const XMLByte*)doc.data(), doc.size(), "c17-err", false);
+                    p->parse(src);
+                } else if (what == 2) {              // primary document that cannot be opened
+                    p->parse(X("/nonexistent-c17/" + name + ".xml").c_str());
+                } else if (what == 3) {              // external DTD subset that cannot be opened
+                    doc = "<?xml version=\"1.0\"?><!DOCTYPE r SYSTEM \"/nonexistent-c17/" + name + ".dtd\"><r/>";
+                    MemBufInputSource src((const XMLByte*)doc.data(), doc.size(), "c17-err", false);
+                    p->parse(src);
+                } else {                             // external entity under an unknown URL protocol (never the network)
+                    doc = "<?xml version=\"1.0\"?><!DOCTYPE r [<!ENTITY e SYSTEM \"noproto" + name + "://x/" + name + ".ent\">]><r>&e;</r>";
+                    MemBufInputSource src((const XMLByte*)doc.data(), doc.size(), "c17-err", false);
+                    p->parse(src);
+                }
+            }
+            catch (const SAXParseException& e) { h.s.err("X", e); }
+            catch (const XMLException& e) { exc = excName("XMLException", e.getMessage()); }
+            catch (const SAXException& e) { exc = excName("SAXException", e.getMessage()); }
+            std::string all = h.s.out + exc;
+            d.add(all);
+            // the message goes into the digest; "own" records that it carries this thread's unique name (the sequential
+            // reference fixes which error kinds do), so a message formatted for another thread changes the digest
+            d.add(all.find(name) != std::string::npos ? "own" : "noname");
+            delete p;
+        });
+    }
+}
+
+// bit11: every escape the token map knows
+static std::basic_string<XMLCh> W(const char16_t* s) { return std::basic_string<XMLCh>((const XMLCh*)s); }
+static void wRegexAll(int idx, int iter, const Shared& sh, Digest& d, Rng& r) {
+    static const char* simple[] = {"\\s", "\\S", "\\d", "\\D", "\\w", "\\W", "\\i", "\\I", "\\c", "\\C"};
+    static const char16_t* subjects[] = {u"Hello", u"$+<=>^`|~", u"\u03B1\u03B2\u0393", u" \t\n", u"0123", u"\u0001\u007F", u"\u0416\u0436z", u"_:a-b.c",
+                                         u"\u00C9\u00E9\u01C5\u02B0", u"\u20AC\u00A3\u2211\u00A9", u"\u2028\u00A0", u"", u"\u0660\u2160\u00BD", u"(-)[_]\u00AB\u00BB"};
+    d.ops++;
+    const size_t nk = sh.rangeKeys.size();
+    for (int it = 0; it < 14; it++) {
+        std::string pat;
+        // thread idx starts at a different key, so that a process covers the key list quickly and every thread's very
+        // first expressions are about different shared tokens than its neighbours' AND the same as some other thread's
+        size_t ki = (iter == 0 ? (size_t)(idx / 2) * 7 + it : r.below((unsigned)(nk + 10))) % (nk + 10);
+        std::string esc;
+        if (ki < nk) esc = std::string(r.coin() ? "\\p{" : "\\P{") + sh.rangeKeys[ki] + "}";
+        else esc = simple[ki - nk];
+        switch (r.below(5)) {
+        case 0: pat = esc; break;
+        case 1: pat = esc + "+"; break;
+        case 2: pat = "[" + esc + "-[a-c]]*x?"; break;
+        case 3: pat = "(" + esc + ")|" + simple[r.below(10)]; break;
+        default: pat = "[^" + esc + "]"; break;
+        }
+        static const char* optss[] = {"", "i", "X", "iX", "i", ""};
+        const char* opts = optss[r.below(6)];
+        d.add(pat + "/" + opts);
+        wrapExceptions(d, [&]() {
+            RegularExpression re(X(pat).c_str(), X(opts).c_str());
+            for (int k = 0; k < 4; k++) {
+                std::basic_string<XMLCh> subj = W(subjects[r.below(sizeof subjects / sizeof subjects[0])]);
+                Match m;
+                bool ok = re.matches(subj.c_str(), &m);
+                d.add(ok ? "M" + std::to_string(m.getStartPos(0)) + ":" + std::to_string(m.getEndPos(0)) : "-");
+            }
+        });
+    }
+}
+
 static void workload(int idx, uint64_t seed, const Shared& sh, Digest& d) {
     Rng r(seed * 1000003ull + (uint64_t)idx * 7919ull + 17);
     std::vector<int> enabled;
-    for (int b = 0; b < 9; b++) if (b != 6 && (sh.mask & (1u << b))) enabled.push_back(b);
+    for (int b = 0; b < 12; b++) if (b != 6 && (sh.mask & (1u << b))) enabled.push_back(b);
     if (enabled.empty()) return;
     // the first operation of thread i is workload (i mod #enabled): all facilities see first-use contention
     for (int it = 0; it < sh.iters; it++) {
@@ -767,7 +994,10 @@ static void workload(int idx, uint64_t seed, const Shared& sh, Digest& d) {
         case 4: wTranscode(d, r); break;
         case 5: wCreateDestroy(d, r); break;
         case 7: wPoolGrow(d, r, sh.pool, tag); break;
-        default: wLcp(d, r); break;
+        case 8: wLcp(d, r); break;
+        case 9: wDtdPool(d, r, sh.pool, tag); break;
+        case 10: wErrText(d, r, tag); break;
+        default: wRegexAll(idx, it, sh, d, r); break;
         }
     }
 }
@@ -783,7 +1013,16 @@ struct Barrier {
 };
 
 int main(int argc, char** argv) {
-    if (argc < 7) { fprintf(stderr, "usage: %s conc|seq seed nthreads workmask perturb iters\n", argv[0]); return 2; }
+    if (argc >= 2 && std::string(argv[1]) == "audit") {
+        XMLPlatformUtils::Initialize();
+        for (const TokInfo& t : auditTokens())
+            printf("TOKEN %s %d present=%d map=%d compacted=%d sorted=%d casei=%d\n", t.key.c_str(), t.compl_, (int)t.present, (int)t.map,
+                   (int)t.compacted, (int)t.sorted, (int)t.casei);
+        XMLPlatformUtils::Terminate();
+        printf("DONE\n");
+        return 0;
+    }
+    if (argc < 7) { fprintf(stderr, "usage: %s conc|seq seed nthreads workmask perturb iters | audit\n", argv[0]); return 2; }
     std::string mode = argv[1];
     uint64_t seed = strtoull(argv[2], 0, 10);
     int nthreads = atoi(argv[3]);
@@ -798,7 +1037,7 @@ int main(int argc, char** argv) {
     PerturbMutexMgr* pm = 0;
     if (gPerturbLevel > 0 && mode == "conc") { pm = new PerturbMutexMgr(origMgr); XMLPlatformUtils::fgMutexMgr = pm; }
 
-    if (sh.mask & 0x82u) {
+    if (sh.mask & 0x282u) {
         // the shared pool: one schema grammar is cached, then the pool is locked; from then on it is read-only and
         // hands out a synchronised URI string pool
         sh.pool = new XMLGrammarPoolImpl(XMLPlatformUtils::fgMemoryManager);
@@ -814,6 +1053,25 @@ int main(int argc, char** argv) {
         delete p;
         sh.pool->lockPool();
     }
+
+    if (sh.mask & 0x800u) {
+        for (const TokInfo& t : auditTokens()) if (t.compl_ == 0) sh.rangeKeys.push_back(t.key);
+    }
+    auto poolState = [&]() {          // what a locked pool holds: must be the same before and after the workloads
+        std::vector<std::string> keys;
+        if (sh.pool) {
+            RefHashTableOfEnumerator<Grammar> en = sh.pool->getGrammarEnumerator();
+            while (en.hasMoreElements()) {
+                Grammar& g = en.nextElement();
+                keys.push_back(narrow(g.getGrammarDescription()->getGrammarKey()) + "#" + std::to_string((int)g.getGrammarType()));
+            }
+        }
+        std::sort(keys.begin(), keys.end());
+        std::string all;
+        for (auto& k : keys) all += k + ";";
+        return std::to_string(keys.size()) + " " + (all.empty() ? "-" : all);
+    };
+    if (sh.pool) printf("POOL before %s\n", poolState().c_str());
 
     std::vector<Digest> res(nthreads);
     if (mode == "seq") {
@@ -833,6 +1091,7 @@ int main(int argc, char** argv) {
     }
     for (int i = 0; i < nthreads; i++) printf("T %d %016llx %lu\n", i, (unsigned long long)res[i].h, res[i].ops);
 
+    if (sh.pool) printf("POOL after %s\n", poolState().c_str());
     if (sh.pool) { sh.pool->unlockPool(); delete sh.pool; }
     if (pm) { XMLPlatformUtils::fgMutexMgr = origMgr; delete pm; }
     XMLPlatformUtils::Terminate();
